@@ -3,6 +3,7 @@ package main
 import (
 	"fmt"
 	"go/types"
+	"strings"
 
 	"golang.org/x/tools/go/ssa"
 )
@@ -89,6 +90,11 @@ func (m *Machine) spawn(name string, fn value, args []value) {
 			panic(threadKill{})
 		}
 		m.call(nil, fn, args)
+		if t.named && m.schedMode {
+			// the end of a named thread is an event of the schedule: a thread that was
+			// preempted resumes only after the threads that ran in between have FINISHED
+			m.hookTrace = append(m.hookTrace, t.name+"|exit")
+		}
 	}()
 }
 
@@ -225,6 +231,20 @@ func (m *Machine) yield() {
 // offers a preemption (a fork in the exploration) while the budget lasts.
 func (m *Machine) syncPoint(what string) {
 	if m.hookOnly {
+		if m.atomicPoints && m.schedMode && strings.HasPrefix(what, "atomic.") && m.callFrame != nil {
+			// a schedule point before an atomic operation, named by the source position of the
+			// call (file:line:column) so that the native replay can put a hook at that very place
+			ps := m.prog.Fset.Position(m.callPos)
+			if ps.IsValid() && strings.HasPrefix(ps.Filename, "/repo/") {
+				pt := fmt.Sprintf("sync@%s:%d:%d", ps.Filename[len("/repo/"):], ps.Line, ps.Column)
+				if m.cur != nil && m.cur.named {
+					m.hookTrace = append(m.hookTrace, m.cur.name+"|"+pt)
+				} else if m.cur != nil && !m.cur.isMain {
+					m.hookTrace = append(m.hookTrace, "bg|"+pt)
+				}
+				m.hookPoint(pt)
+			}
+		}
 		return
 	}
 	m.hookPoint(what)
@@ -250,6 +270,17 @@ func (m *Machine) hookPoint(what string) {
 		return
 	}
 	m.preemptLeft--
+	// mark the thread's event at this point as the one where it lost the processor
+	if n := len(m.hookTrace); n > 0 && !strings.HasSuffix(m.hookTrace[n-1], "!") {
+		who := "bg"
+		if t.named {
+			who = t.name
+		}
+		pt := strings.TrimPrefix(what, "hook:")
+		if m.hookTrace[n-1] == who+"|"+pt {
+			m.hookTrace[n-1] += "!"
+		}
+	}
 	m.schedTrace = append(m.schedTrace, fmt.Sprintf("%s:%s->%s", what, t.name, cands[k-1].name))
 	t.status = tRunnable
 	m.switchTo(cands[k-1])
